@@ -218,6 +218,7 @@ func saveFailure(v *Violation, kind string, c interface{}) {
 
 type fataler interface {
 	Fatalf(format string, args ...interface{})
+	Logf(format string, args ...interface{})
 }
 
 // handle routes a monitor's verdict: known signature → counted and ignored,
@@ -231,7 +232,10 @@ func handle(t fataler, v *Violation, kind string, c interface{}) bool {
 		return true
 	}
 	saveFailure(v, kind, c)
-	t.Fatalf("VIOLATION %s", v.Error())
+	// rapid compares failure messages while shrinking: the fatal message must be
+	// a pure function of the case (no timestamps, no random tokens).
+	t.Logf("detail: %s", v.Detail)
+	t.Fatalf("VIOLATION %s [%s] step %d", v.Prop, v.Sig, v.Step)
 	return true
 }
 
